@@ -4,7 +4,7 @@
 // verif-replay: cfg=release
 // verif-replay: tag=VERIF_TAG
 // failed check(s): VERIF_TAG returned_implies_valid
-// native replay: dev FAILS (reproduced), release did not run
+// native replay: dev FAILS (reproduced), release FAILS (reproduced)
 // re-run: /verif/check C11 --replay /verif/replays/C11/c11_ooc_new_from_internals_short_raw.rs
 /// Test generated for harness `internals::hash::tests::c11_ooc_new_from_internals_short_raw` 
 ///
